@@ -4,5 +4,5 @@
 From Coq Require Import ExtrOcamlBasic ZArith List.
 From AxV Require Import Bits Outcome Codes Iced State Rt Mem Trace Exec Sys StackInit Elf Machine RegFile.
 Extraction Language OCaml.
-Separate Extraction RegFile.spec_rop RegFile.run_spec Iced.all_views State.set_regs Machine.run_op Machine.empty_state Iced.gpr64_list Iced.xmm_list
+Separate Extraction RegFile.spec_rop RegFile.run_spec Iced.all_views State.set_regs Machine.run_op State.empty_state Iced.gpr64_list Iced.xmm_list
   State.regs Z.of_nat Z.to_nat Z.add Z.mul Z.div Z.modulo Z.eqb Z.ltb Z.leb Z.pow Z.land Z.lor.
